@@ -90,6 +90,19 @@ theorem getD_dAtan2 : (dAtan2 a da b db).getD 0
   cases da <;> cases db <;> simp [dAtan2]
 end getD
 
+/-- a two-valued step function of a differentiable quantity is locally constant away from the step -/
+theorem hasDerivAt_step {f : ℝ → ℝ} {f' t : ℝ} (a b : ℝ) (hf : HasDerivAt f f' t) (hne : f t ≠ 0) :
+    HasDerivAt (fun s => if Num.lt (f s) (Num.zero : ℝ) = true then a else b) 0 t := by
+  rcases lt_or_gt_of_ne hne with h | h
+  · have ev : (fun s => if Num.lt (f s) (Num.zero : ℝ) = true then a else b) =ᶠ[nhds t] fun _ => a := by
+      filter_upwards [hf.continuousAt.eventually (gt_mem_nhds h)] with s hs
+      simp [hs]
+    exact (hasDerivAt_const t a).congr_of_eventuallyEq ev
+  · have ev : (fun s => if Num.lt (f s) (Num.zero : ℝ) = true then a else b) =ᶠ[nhds t] fun _ => b := by
+      filter_upwards [hf.continuousAt.eventually (lt_mem_nhds h)] with s hs
+      simp [not_lt.mpr hs.le]
+    exact (hasDerivAt_const t b).congr_of_eventuallyEq ev
+
 /-! #### the real arctan2 on its three open regions and its derivative off the branch cut -/
 
 theorem atan2R_of_pos_x {y x : ℝ} (hx : 0 < x) : atan2R y x = Real.arctan (y / x) := by
